@@ -103,6 +103,32 @@ func runC05(sc *SessScript) *sim.Outcome {
 				c, done := s.DeliverWire(rcv, &cp)
 				r.after(c, done)
 			}
+		case "replayall":
+			// the whole recorded history of the peer's data messages, oldest first
+			rcv := op.W & 1
+			var all []*Unit
+			for _, u := range s.Units {
+				if u.From != rcv && u.IsData() {
+					all = append(all, u)
+				}
+			}
+			if op.X%2 == 1 { // newest first
+				for i, j := 0, len(all)-1; i < j; i, j = i+1, j-1 {
+					all[i], all[j] = all[j], all[i]
+				}
+			}
+			for _, u := range all {
+				for _, wr := range u.Wires {
+					cp := *wr
+					cp.Replayed = true
+					s.byWire[&cp] = s.byWire[wr]
+					c, done := s.DeliverWire(rcv, &cp)
+					r.after(c, done)
+				}
+			}
+			// error replies provoked by the replays are dropped
+			s.W.Q[rcv] = nil
+			o.Class("replay-whole-history")
 		case "flush":
 			for n := 0; n < 100000 && s.W.Pending() > 0 && o.Violation == ""; n++ {
 				d := n % 2
@@ -175,7 +201,7 @@ func init() { reg("C05replay", runC05) }
 
 func TestProp_C05_Replay(t *testing.T) {
 	defer sim.MarkCompleted("C05replay", false)
-	kinds := []string{"pp", "pp", "pp", "send", "send", "dl", "dl", "dl", "dup", "dup", "replay", "replay", "replay", "replay", "rekey", "smp", "ans", "xk", "age", "flush"}
+	kinds := []string{"pp", "pp", "pp", "send", "send", "dl", "dl", "dl", "dup", "dup", "replay", "replay", "replay", "replay", "replayall", "replayall", "rekey", "smp", "ans", "xk", "age", "flush"}
 	rapid.Check(t, func(rt *rapid.T) {
 		sc := &SessScript{Cfg: genSessCfg(rt)}
 		n := rapid.IntRange(2, 40).Draw(rt, "nops")
